@@ -1267,7 +1267,7 @@ func checkArrayFillBounded(r *Reporter, p *Prog) {
 			if f == nil {
 				f = newFuncCFG(p, info, fd.Body, fkey)
 			}
-			key := fmt.Sprintf("%s(%s, %s) in %s", fn.Name(), exprKey(c.Args[cp.dst]), exprKey(c.Args[cp.src]), fkey)
+			key := fmt.Sprintf("%s(%s, %s) in %s", funcName(fn), exprKey(c.Args[cp.dst]), exprKey(c.Args[cp.src]), fkey)
 			pt, found := f.PointOf(c)
 			if !found {
 				// inside a function literal: judged on the literal's own graph
@@ -2248,7 +2248,7 @@ func runC03(c *Ctx) {
 							}
 						}
 					case *ast.CallExpr:
-						if fn, ok := pk.TypesInfo.Uses[selIdent(x.Fun)].(*types.Func); ok && fn.Pkg() != nil && fn.Pkg().Path() == "encoding/binary" && (fn.Name() == "Write" || fn.Name() == "Read") {
+						if fn, ok := pk.TypesInfo.Uses[selIdent(x.Fun)].(*types.Func); ok && fn.Pkg() != nil && fn.Pkg().Path() == "encoding/binary" && (funcName(fn) == "Write" || funcName(fn) == "Read") {
 							nRW++
 							if len(x.Args) < 2 || exprKey(x.Args[1]) != "binary.LittleEndian" {
 								badRW = append(badRW, prog.posStr(x.Pos())+" "+exprKey(x))
@@ -3126,7 +3126,7 @@ func checkSourceReadOnly(r *Reporter, p *Prog) {
 									for ai, a := range x.Args {
 										if isTarget(a, pt) {
 											if w, writes := writesParam(hd, ai, depth-1); writes {
-												where, hit = fmt.Sprintf("%s: handed to %s, which writes into it (%s)", p.posStr(x.Pos()), fn.Name(), w), true
+												where, hit = fmt.Sprintf("%s: handed to %s, which writes into it (%s)", p.posStr(x.Pos()), funcName(fn), w), true
 											}
 										}
 									}
